@@ -100,6 +100,8 @@ impl Relation {
             log::warn!("Warning, epsilon>1 the gaussian mechanism applied will not be exactly epsilon,delta-DP!")
         }
         let number_of_agg = bounds.len() as f64;
+        #[cfg(qrlew_verif)]
+        let verif_bounds = bounds.clone();
         let (dp_relation, dp_event) = if number_of_agg > 0. {
             let gaussian_noises = bounds
                 .into_iter()
@@ -114,6 +116,24 @@ impl Relation {
                     )
                 })
                 .collect::<Vec<_>>();
+            #[cfg(qrlew_verif)]
+            crate::verif::event(|| {
+                format!(
+                    "{{\"ev\":\"gaussian_mechanisms\",\"epsilon\":{:e},\"delta\":{:e},\"bounds\":[{}],\"sigmas\":[{}]}}",
+                    epsilon,
+                    delta,
+                    verif_bounds
+                        .iter()
+                        .map(|(n, b)| format!("[{:?},{:e}]", n, b))
+                        .collect::<Vec<_>>()
+                        .join(","),
+                    gaussian_noises
+                        .iter()
+                        .map(|(n, s)| format!("[{:?},{:e}]", n, s))
+                        .collect::<Vec<_>>()
+                        .join(",")
+                )
+            });
             let dp_event = gaussian_noises
                 .iter()
                 .map(|(_, n)| {
